@@ -432,4 +432,15 @@ def fresh_workdir(prop):
     d = os.path.join(WORK, prop)
     shutil.rmtree(d, ignore_errors=True)
     os.makedirs(d, exist_ok=True)
+    # replay files of the previous run of this property are superseded
+    try:
+        with os.scandir(REPLAYS) as it:
+            for e in it:
+                if e.name.startswith(prop + "-") and e.is_file():
+                    try:
+                        os.unlink(e.path)
+                    except OSError:
+                        pass
+    except OSError:
+        pass
     return d
